@@ -57,6 +57,8 @@ pub struct GrammarSys {
     pub ch: u8,
     pub timeout: u64,
     pub timeout_us: u64,
+    /// nanoseconds on top of `timeout_us` (a timeout need not be a whole number of microseconds either)
+    pub timeout_sub_ns: u64,
     /// length of one clock tick in nanoseconds (1 ms unless `with_tick_us` is used); `now`, `timeout`,
     /// `cap`, ages and pauses are in ticks
     pub tick_ns: u64,
@@ -73,6 +75,7 @@ impl GrammarSys {
             ch,
             timeout,
             timeout_us: timeout.saturating_mul(1000),
+            timeout_sub_ns: 0,
             tick_ns: 1_000_000,
             exotic: None,
             cap: cap_for(timeout, 1),
@@ -92,7 +95,7 @@ impl GrammarSys {
         if let Some((_, l)) = self.exotic {
             return l.to_string();
         }
-        if self.timeout >= T_INF { "inf".into() } else if self.timeout_us % 1000 != 0 { format!("{}us", self.timeout_us) } else { format!("{}ms", self.timeout) }
+        if self.timeout >= T_INF { "inf".into() } else if self.timeout_sub_ns != 0 { format!("{}ns", self.timeout_ns()) } else if self.timeout_us % 1000 != 0 { format!("{}us", self.timeout_us) } else { format!("{}ms", self.timeout) }
     }
     pub fn with_timeout_us(mut self, us: u64) -> Self {
         self.timeout_us = us;
@@ -101,7 +104,21 @@ impl GrammarSys {
         self
     }
     fn expired(&self, age: u64) -> bool {
-        (age as u128) * (self.tick_ns as u128) >= (self.timeout_us as u128) * 1000
+        (age as u128) * (self.tick_ns as u128) >= self.timeout_ns() as u128
+    }
+    pub fn timeout_ns(&self) -> u64 {
+        self.timeout_us.saturating_mul(1000).saturating_add(self.timeout_sub_ns)
+    }
+    /// A timeout given in nanoseconds, on a clock whose tick is `tick_ns` nanoseconds.
+    pub fn with_timeout_ns(mut self, ns: u64, tick_ns: u64) -> Self {
+        assert!(self.exotic.is_none());
+        self.timeout_us = ns / 1000;
+        self.timeout_sub_ns = ns % 1000;
+        self.tick_ns = tick_ns;
+        self.timeout = (ns + tick_ns - 1) / tick_ns;
+        self.cap = cap_for(self.timeout, 1);
+        self.pauses = vec![(1 << 20) + 100];
+        self
     }
     /// A finer clock (one tick = `tick_us` microseconds), so that polls fall between whole milliseconds.
     pub fn with_tick_us(mut self, tick_us: u64) -> Self {
@@ -225,7 +242,7 @@ impl System for GrammarSys {
     }
     fn init(&self) -> GState {
         self.clock(0);
-        GState { sc: PollingParameterNumberMessageScanner::new(match self.exotic { Some((d, _)) => d, None => Duration::from_micros(self.timeout_us) }), now: 0, g: G::Start }
+        GState { sc: PollingParameterNumberMessageScanner::new(match self.exotic { Some((d, _)) => d, None => Duration::from_nanos(self.timeout_ns()) }), now: 0, g: G::Start }
     }
     fn actions_at(&self, s: &GState, depth: u32, out: &mut Vec<GAct>) {
         self.actions(s, out);
@@ -318,7 +335,7 @@ impl System for GrammarSys {
         }
     }
     fn rust_preamble(&self) -> String {
-        let d = match self.exotic { Some((d, _)) => d, None => Duration::from_micros(self.timeout_us) };
+        let d = match self.exotic { Some((d, _)) => d, None => Duration::from_nanos(self.timeout_ns()) };
         format!("// build with RUSTFLAGS=\"--cfg helgoboss_midi_verif\" for the mock clock\n    let mut scanner = helgoboss_midi::PollingParameterNumberMessageScanner::new(std::time::Duration::new({}, {}));\n    let mut clock = 0u64;", d.as_secs(), d.subsec_nanos())
     }
     fn rust_line(&self, a: &GAct) -> String {
@@ -524,6 +541,12 @@ pub fn run_c12(chk: &Check, tier: Tier) {
             // (on a finer clock: half / quarter millisecond ticks)
             for (us, tick_us) in [(1500u64, 500u64), (500, 250)] {
                 let sys = GrammarSys::new(channels[0], 2, &v3).with_timeout_us(us).with_tick_us(tick_us);
+                let out = xs::explore(&sys, &Limits::default());
+                engine::record(chk, &sys, &out, None);
+            }
+            // not a whole number of microseconds (250 / 500 ns ticks); one second (250 ms ticks)
+            for (ns, tick_ns) in [(500u64, 250u64), (1500, 500), (1_000_000_000, 250_000_000)] {
+                let sys = GrammarSys::new(channels[0], 1, &v3).with_timeout_ns(ns, tick_ns);
                 let out = xs::explore(&sys, &Limits::default());
                 engine::record(chk, &sys, &out, None);
             }
